@@ -26,6 +26,9 @@ THEOREMS = [
     "TornadoModel.C02.readLine_line",
     "TornadoModel.C02.response_wellframed_exact",
     "TornadoModel.C02.response_wellframed",
+    "TornadoModel.C02.response_wellframed_partial",
+    "TornadoModel.C02.response_wellframed_refuted",
+    "TornadoModel.C02.write_headers_transfer_encoding",
     "TornadoModel.C02.flush_rejects_invalid_content_length",
     "TornadoModel.C02.content_length_check_iff",
     "TornadoModel.C02.accepted_flush_raises_only_closed",
@@ -46,7 +49,8 @@ TRUSTED = [
 ]
 ASSUMPTIONS = [
     "request versions HTTP/1.0 and HTTP/1.1 only; methods GET/HEAD/POST; POST carries a Content-Length; no_keep_alive off",
-    "handler header names are RFC tokens other than Transfer-Encoding/Connection/Date/Server (names with CR/LF/NUL: C07, D9)",
+    "handler header names are RFC tokens (names with CR/LF/NUL: C07, D9); a handler-set Transfer-Encoding is known finding "
+    "C02/TE1: generated and judged by C02's oracle, outside the theorems (response_wellframed_full / _partial / _refuted)",
     "handler-set Content-Length values of >= 4300 digits are not generated (Python's int() digit limit makes parse_int raise "
     "where the model's parseDec succeeds); any other text, valid or not, is in the domain",
     "Date / Server values and the automatic ETag digest are abstracted (normalised to D / S / \"E\"); check_etag_header is the boolean inmMatch",
@@ -60,30 +64,49 @@ RULE = ("handler programs of <= 8 ops (status/set/add/clear header, write, flush
         "(<= 4 for two shapes in the thorough tier) over an 8-op Content-Length alphabet x 6 request shapes; "
         "plus a systematic family of programs with LARGE chunks (8 KiB..300 KiB, dense at 65535/65536/65537 and at sums of "
         "buffered writes crossing 64 KiB) placed before the first flush / after it / in finish() / with explicit Content-Length; "
+        "plus handler-set Transfer-Encoding / Connection / Date / Server (framework-managed names): ~12% of the random programs, all "
+        "programs <= 3 ops (<= 4 for two shapes, thorough) over an 8-op Transfer-Encoding alphabet x 6 request shapes, every TE value "
+        "x set/add x 11 continuations (incl. raw bodies that read as chunked) x request shapes; "
         "non-trivial = the program writes data and flushes or writes twice, or hits an error/abort path; distinct by canonical JSON")
 EXHAUSTIVE = {"quick": False, "thorough": False}
 CLAUSES = {
-    "exactly one response that a strict client delimits unambiguously, with the final status/headers and the chunks written":
-        "headers_precede_first_chunk + fmtChunk_out (write_headers emits ONE write = head ++ coded first chunk for every chunk "
-        "size; _format_chunk itself never writes) + response_wellframed_exact (every request shape, every program under the decidable side conditions reqOK/opOK: "
-        "Spec.clientParse on the model's wire bytes = exactly one response, nothing left over, status/reason/header lines "
-        "= what write_headers serialised, body = concatenation of the chunks accepted by the connection, delimited by "
-        "no-body/chunked/Content-Length/close; otherwise truncated AND closed, only when the handler's own Content-Length "
-        "exceeds what it wrote; header VALUES are unrestricted since fix 16d5f7d) + response_wellframed (the originally "
-        "stated goal, now at full strength: formerly _partial, with _refuted by set_header('Content-Length','a')) + "
-        "flush_rejects_invalid_content_length / content_length_check_iff / accepted_flush_raises_only_closed (flush() with "
-        "a Content-Length that is not one decimal number raises before _headers_written is set and changes nothing; a flush "
-        "that passes never meets parse_int's ValueError inside write_headers) + invalid_content_length_error_page (the old "
-        "witness for EVERY invalid value and non-HEAD request shape: the client reads exactly the 500 error page) "
-        "+ body_is_writes (exception-free programs on non-HEAD requests without an If-None-Match hit: "
-        "the client's status is the one in force at the first flush/finish and its body is the concatenation of the "
-        "program's writes up to the first finish, for every interleaving of writes/flushes and every delimitation mode); "
-        "built on chunk_wire_roundtrip, readLine_line, content_length_text_roundtrip, identity_coding",
-    "HEAD / 204 / 304 carry no body": "nobody_wire_is_head (wire = exactly the serialised head for HEAD/1xx/204/304, all programs) "
-        "+ response_wellframed_exact (client body empty, no trailing bytes)",
-    "a Content-Length equals the length of the body a GET would carry": "cl_equals_get_body (finish()'s automatic value) + content_length_text_roundtrip",
+    "exactly one response that a strict client delimits unambiguously":
+        "PARTIAL (known finding TE1): response_wellframed_full is the statement over all token header names; "
+        "response_wellframed_refuted disproves it on the code as it is (set_header('Transfer-Encoding','chunked'); write('a') -> "
+        "Transfer-Encoding: chunked + Content-Length: 1 + raw body); response_wellframed_partial = response_wellframed = "
+        "response_wellframed_exact prove it for every request shape and every program that does not itself set Transfer-Encoding "
+        "(decidable side conditions reqOK/opOK; header VALUES unrestricted since fix 16d5f7d): Spec.clientParse on the model's wire "
+        "bytes = exactly one response, nothing left over, delimited by no-body/chunked/Content-Length/close; otherwise truncated AND "
+        "closed, only when the handler's own Content-Length exceeds what it wrote. write_headers_transfer_encoding states the "
+        "mechanism (the handler's value survives exactly when the connection does not chunk-code). Supporting: "
+        "headers_precede_first_chunk + fmtChunk_out, flush_rejects_invalid_content_length / content_length_check_iff / "
+        "accepted_flush_raises_only_closed / invalid_content_length_error_page, chunk_wire_roundtrip, readLine_line, "
+        "content_length_text_roundtrip, identity_coding",
+    "carrying the final status and the chunks written":
+        "body_is_writes (exception-free programs on non-HEAD requests without an If-None-Match hit, no handler-set "
+        "Content-Length/Transfer-Encoding: the client's status is the one in force at the first flush/finish and its body is the "
+        "concatenation of the program's writes up to the first finish, for every interleaving of writes/flushes and every "
+        "delimitation mode). For programs that raise, HEAD, 304 substitution: response_wellframed_exact only ties the client's "
+        "view to the connection's ghost record (status/headers as serialised, body = chunks the connection accepted); "
+        "the link to the program text is tie only: oracle `intended` on every case",
+    "carrying the headers the handler set":
+        "tie only: the oracle compares every header the program text sets (set/add/clear folded over the ops up to the first "
+        "flush, Python `intended`, no framework logic) with the header lines the strict client parsed from the real bytes, on "
+        "every case. In Lean only response_wellframed_exact: parsed header lines = the lines write_headers serialised (ghost "
+        "`head`, set by cWriteHeaders to exactly what it serialises) - no theorem relates them to the program's ops "
+        "(body_is_writes quantifies the header list existentially)",
+    "HEAD / 204 / 304 carry no body": "nobody_wire_is_head (wire = exactly the serialised head for HEAD/1xx/204/304, all programs without "
+        "handler-set Transfer-Encoding) + response_wellframed_exact (client body empty, no trailing bytes)",
+    "a Content-Length equals the length of the body a GET would carry":
+        "GET/POST: response_wellframed_exact (a Content-Length-delimited response is complete only if the body has exactly that "
+        "many bytes; shorter = truncated AND closed, longer is refused by the connection) + body_is_writes (automatic "
+        "Content-Length: that body is the program's writes) + content_length_text_roundtrip; cl_equals_get_body is only the "
+        "one-step fact that finish()'s automatic value is the decimal length of the write buffer. HEAD: tie only - no theorem "
+        "compares the HEAD run with the GET run of the same program; the oracle checks on every HEAD case that an automatic "
+        "Content-Length equals the number of bytes the program wrote",
     "when neither Content-Length nor chunked coding delimits the body the connection is closed after it":
-        "undelimited_closes (decision logic, all request shapes/statuses/header maps) + undelimited_closes_at_finish + cWrite_keeps + cFinish_closes",
+        "undelimited_closes (decision logic, all request shapes/statuses/header maps) + undelimited_closes_at_finish + cWrite_keeps + "
+        "cFinish_closes; run level: response_wellframed_exact (delimiter untilClose is reported only with eof = the closed flag)",
 }
 PARALLEL = False   # 1-2 ms per case; forking a pool costs more than it saves
 CASE_TIMEOUT = 20
@@ -102,6 +125,9 @@ BIG_PATS = ["41", "42", "0d", "0a", "30", "00", "ff"]
 STATUSES = [200, 200, 200, 200, 201, 204, 304, 404, 500, 101, 100, 599]
 H_NAMES = ["Content-Type", "content-type", "X-Foo", "x-foo", "X-FOO", "Etag", "Content-Encoding", "Content-Language",
            "Vary", "Cache-Control", "X-Multi"]
+# headers the framework itself manages: a handler may set them too (reviewer round 1: never generated before)
+H_MANAGED = ["Transfer-Encoding", "transfer-encoding", "Connection", "Date", "Server", "connection"]
+TE_VALUES = ["chunked", "chunked", "Chunked", "gzip", "gzip, chunked", "identity", "", "x"]
 H_VALUES = ["1", "a b", " lead", "trail ", "\xe9\xff", "x,y", "", "a\tb", "text/plain", "image/png",
             "application/json; charset=UTF-8", "gzip", '"x"', 'W/"y"', "Accept-Encoding", "Cookie"]
 H_BAD = ["a\nb", "a\rb", "\x00", "x\x7f", "Ā", "a\r\nX-Evil: 1"]
@@ -170,7 +196,28 @@ def _rand_prog(rng, maxops=8):
         ops.insert(pos, ["set", rng.choice(["Content-Length", "content-length"]), str(v)])
     elif k < 0.42:
         _insert_odd_cl(rng, ops)
+    if rng.random() < 0.12:
+        _insert_managed(rng, ops)
     return ops
+
+
+def _insert_managed(rng, ops):
+    """a handler-set Transfer-Encoding (mostly) / Connection / Date / Server, mostly before the response starts"""
+    first = next((i for i, o in enumerate(ops) if o[0] in ("flush", "finish")), len(ops))
+    pos = rng.randint(0, first) if rng.random() < 0.8 else rng.randint(0, len(ops))
+    k = rng.random()
+    if k < 0.6:
+        name = rng.choice(["Transfer-Encoding", "Transfer-Encoding", "transfer-encoding", "TRANSFER-ENCODING"])
+        new = [[rng.choice(["set", "set", "add"]), name, rng.choice(TE_VALUES)]]
+        if rng.random() < 0.2:
+            new.append(rng.choice([["clear", "Transfer-Encoding"], ["add", name, "chunked"], ["set", name, "chunked"]]))
+    elif k < 0.8:
+        new = [[rng.choice(["set", "add"]), rng.choice(["Connection", "connection"]),
+                rng.choice(["close", "keep-alive", "Keep-Alive", "upgrade", "x"])]]
+    else:
+        new = [rng.choice([["set", "Date", "x"], ["set", "Server", "y"], ["clear", "Date"], ["clear", "Server"],
+                           ["add", "Server", "z"], ["add", "date", "Thu, 01 Jan 1970 00:00:00 GMT"]])]
+    ops[pos:pos] = new
 
 
 def _insert_odd_cl(rng, ops):
@@ -269,6 +316,47 @@ def _cl_cases(rng, tier):
                          [["status", 204]], [["status", 304], ["flush"]], [["finish", ["616263", 3]]]):
                 for rq in (BIG_REQS if thorough else rng.sample(BIG_REQS, 3)):
                     yield {"req": dict(rq), "prog": [[kind, "Content-Length", v]] + [list(o) for o in tail]}
+
+
+# the Transfer-Encoding alphabet: every way a handler-set Transfer-Encoding can meet the framing decisions
+TE_OPS = [["set", "Transfer-Encoding", "chunked"], ["add", "transfer-encoding", "gzip"], ["clear", "Transfer-Encoding"],
+          ["set", "Content-Length", "2"], ["status", 204], ["write", ["6162", 2]], ["flush"], ["finish", None]]
+TE_REQS = SMALL_REQS[:4] + [{"method": "POST", "v11": True, "conn": "close", "inm": "none"},
+                            {"method": "GET", "v11": True, "conn": None, "inm": "star"}]
+
+
+def _te_cases(rng, tier):
+    """handler-set Transfer-Encoding (known finding TE1) and the other framework-managed names: exhaustive short
+    programs + every value x set/add x continuation x request shape"""
+    if tier == "search":
+        for _ in range(60):
+            prog = _rand_prog(rng, 5)
+            _insert_managed(rng, prog)
+            yield {"req": _rand_req(rng), "prog": prog}
+        return
+    thorough = tier == "thorough"
+    seen = set()
+    for c in itertools.chain(_enum(3 if thorough else 2, TE_REQS, TE_OPS), _enum(4 if thorough else 3, TE_REQS[:2], TE_OPS)):
+        key = (tuple(sorted(c["req"].items(), key=str)), repr(c["prog"]))
+        if key not in seen:
+            seen.add(key)
+            yield c
+    raw = ["300d0a0d0a", 5]        # a raw body that happens to read as a (terminated) chunked body: "0\r\n\r\n"
+    tails = ([], [["flush"]], [["write", ["616263", 3]]], [["write", ["616263", 3]], ["flush"], ["write", ["61", 1]]],
+             [["status", 204]], [["status", 304], ["flush"]], [["finish", ["616263", 3]]],
+             [["write", raw], ["flush"]], [["write", ["310d0a610d0a", 6]], ["flush"]], [["write", raw], ["flush"], ["write", ["78", 3]]],
+             [["set", "Content-Length", "3"], ["write", ["616263", 3]], ["flush"]])
+    for v in sorted(set(TE_VALUES)):
+        for kind in ("set", "add"):
+            for tail in tails:
+                for rq in (BIG_REQS if thorough else rng.sample(BIG_REQS, 3)):
+                    yield {"req": dict(rq), "prog": [[kind, "Transfer-Encoding", v]] + [list(o) for o in tail]}
+    for name, vals in (("Connection", ["close", "keep-alive", "Keep-Alive", "x"]), ("Date", ["x"]), ("Server", ["y"])):
+        for v in vals:
+            for kind in ("set", "add", "clear"):
+                for tail in tails[:4]:
+                    for rq in (BIG_REQS if thorough else rng.sample(BIG_REQS, 3)):
+                        yield {"req": dict(rq), "prog": [[kind, name, v][:2 if kind == "clear" else 3]] + [list(o) for o in tail]}
 
 
 BIG_REQS = SMALL_REQS + [
@@ -376,6 +464,7 @@ def gen_cases(rng, tier, compress=False):
         yield from _enum(4, SMALL_REQS)
     yield from _big_cases(rng, tier)
     yield from _cl_cases(rng, tier)
+    yield from _te_cases(rng, tier)
     for _ in range(n_prog):
         prog = _rand_prog(rng)
         for _ in range(5):
@@ -413,6 +502,7 @@ def inm_match(case):
     return case["req"].get("inm", "none") in ("star", "hit", "weakhit")
 
 
+_DATE = re.compile(rb"\r\nDate: [A-Z][a-z]{2}, \d{2} [A-Z][a-z]{2} \d{4} \d{2}:\d{2}:\d{2} GMT(?=\r\n)")
 _HEX40 = re.compile(rb'\r\nEtag: "[0-9a-f]{40}"(?=\r\n)')
 
 
@@ -422,7 +512,7 @@ def normalise(wire):
     if not wire.startswith(b"HTTP/1.1 ") or i < 0:
         return wire
     head, rest = wire[:i], wire[i:]
-    head = re.sub(rb"\r\nDate: [^\r\n]*", b"\r\nDate: D", head, count=1)
+    head = _DATE.sub(b"\r\nDate: D", head + b"\r\n", count=1)[:-2]     # the framework's own value only
     head = re.sub(rb"\r\nServer: TornadoServer/[^\r\n]*", b"\r\nServer: S", head, count=1)
     head = _HEX40.sub(b'\r\nEtag: "E"', head + b"\r\n", count=1)[:-2]
     return head + rest
@@ -613,6 +703,9 @@ def cl_invalid(hdrs):
     return vals is not None and not _DECIMAL.match(",".join(vals))
 
 
+DEFAULTS = {"server": ["S"], "date": ["D"]}      # the framework's own default values, as `normalise` shows them
+
+
 def intended(case, default_ct=True):
     """What the program asks for, read off the program text alone (no framework logic beyond: an op after the
     response has started cannot change its status line / headers; an op with an illegal argument is rejected;
@@ -620,6 +713,7 @@ def intended(case, default_ct=True):
     hdrs = {}            # lower name -> list of values, as the handler set them
     if default_ct:
         hdrs["content-type"] = ["text/html; charset=UTF-8"]
+    hdrs.update({n: list(v) for n, v in DEFAULTS.items()})     # add_header appends to them, set/clear replace them
     status, writes, emitted, wrote = 200, b"", False, False
     at_emit = None
     rejected = None      # "before" | "after" the headers went out
@@ -730,6 +824,12 @@ def spec_violation(case, impl, replies, vary_ok=None, decode=None):
             continue
         if n == "content-length" or (vary_ok is not None and n in ("vary", "content-encoding")):
             continue
+        if DEFAULTS.get(n) == vals:
+            continue         # untouched framework default: not a header the handler set
+        if n == "transfer-encoding":
+            continue         # a framing header like Content-Length: judged by whether the client can delimit the body (above)
+        if n == "connection" and hs.get(n) in (["close"], ["Keep-Alive"]):
+            continue         # the server's own connection management replaces the handler's value
         if hs.get(n) != [v.strip(" \t") for v in vals]:
             return "header %s: got %r, the handler set %r" % (n, hs.get(n), vals)
     if vary_ok is not None:
@@ -776,6 +876,12 @@ def stats(case, impl):
             n = o[1][1]
             out.append("chunk:%d" % n if n in SIZES or n in EDGE_SIZES else
                        "chunk:other" if n < BIG_MIN else "chunk:8K..64K" if n < 65535 else "chunk:>64K")
+    if any(o[0] in ("set", "add") and o[1].lower() == "transfer-encoding" for o in case["prog"]):
+        out.append("te:" + (te_passed_through(case, impl) or
+                            ("chunk-coded" if b"\r\nTransfer-Encoding: chunked" in head else "not-on-wire")))
+    for o in case["prog"]:
+        if o[0] in ("set", "add", "clear") and o[1].lower() in ("connection", "date", "server"):
+            out.append("managed:" + o[1].lower())
     if is_big(case):
         first = 0       # bytes buffered when the headers go out with the first flush
         for o in case["prog"]:
@@ -797,11 +903,32 @@ def signature(case, impl, why):
                        "keep-alive" if (rq["conn"] or "").lower() == "keep-alive" else "other")
     cls = "nobody-status" if NOBODY(want["status"]) else "body-status"
     fl = "flush-before-finish" if want["flushed_early"] else "no-early-flush"
+    te = te_passed_through(case, impl, want)
+    if te:
+        return "%s/handler-transfer-encoding/%s" % (kind, te)
     if kind in ("status", "body", "content-length"):
         return "%s/%s/%s/%s" % (kind, rq["method"], cls, fl)
-    if kind == "header":
-        return "header/" + why.split(":")[0].split(" ")[-1]
+    if kind.startswith("header "):
+        return "header/" + kind.split(" ")[-1]
     return "%s/%s/%s/%s" % (kind, shape, cls, fl)
+
+
+def te_passed_through(case, impl, want=None):
+    """known finding TE1: a Transfer-Encoding the handler set is on the wire although the connection does not
+    chunk-code the body -- beside a Content-Length ("with-content-length") or on a response to an HTTP/1.0 request
+    streamed until close ("http10-streamed").  (On an HTTP/1.1 response without Content-Length the connection
+    chunk-codes and writes its own `Transfer-Encoding: chunked` over the handler's: not this class.)"""
+    want = want or intended(case)
+    if "transfer-encoding" not in want["headers"]:
+        return None
+    head = wire_bytes(impl).split(b"\r\n\r\n", 1)[0].lower()
+    if b"\r\ntransfer-encoding:" not in head:
+        return None
+    if b"\r\ncontent-length:" in head:
+        return "with-content-length"
+    if not case["req"]["v11"]:
+        return "http10-streamed"
+    return None
 
 
 def shrink(case):
